@@ -1552,9 +1552,18 @@ func (e *Entry) dup() *Entry {
 		}
 	}
 
+	// The copy shares the backing arrays of its slices with e.  Clip the
+	// ones that are appended to after entries have been copied (errors,
+	// defaults added by deviations, merged augments, extras), so that
+	// appending allocates rather than writes into storage that the other
+	// copies of e share.
+	ne.Default = ne.Default[:len(ne.Default):len(ne.Default)]
+	ne.Errors = ne.Errors[:len(ne.Errors):len(ne.Errors)]
+	ne.Augmented = ne.Augmented[:len(ne.Augmented):len(ne.Augmented)]
+
 	ne.Extra = make(map[string][]interface{})
 	for k, v := range e.Extra {
-		ne.Extra[k] = v
+		ne.Extra[k] = v[:len(v):len(v)]
 	}
 
 	// The input and output of an rpc or action are subtrees of their own.
